@@ -902,24 +902,36 @@ def failed(it: Item, outcome: Outcome) -> bool:
     return not (kind == "ok" and list(payload) == list(it.expect))
 
 
+def _literal_of(target: str, text: str) -> Optional[str]:
+    its, _ = make_items("s", text, None, only=target, langs=[lang_of(target)])
+    return its[0].literal if its else None
+
+
 def recognised(it: Item, outcome: Outcome) -> Optional[str]:
-    """Root causes that are recognised from the literal itself (defects seen on the pinned tree)."""
+    """
+    Root causes that are recognised from what the helper emits (defects seen on the pinned tree);
+    this only *names* the bucket of a literal that the reader already rejected.
+    """
     lang = lang_of(it.target)
     kind, payload = outcome
     text = it.value if isinstance(it.value, str) else ""
-    if it.kind != "s":
+    if it.kind != "s" or "needs_escaping" in it.target:
         return None
-    if (
-        lang == "cpp" and "\\x" in it.literal and _hexesc_then_digit(text)
-        and (kind == "ok" or "out of range" in str(payload))
-    ):
-        return "hex-escape-absorbs-following-hex-digit"
-    if (
-        lang == "golang" and "needs_escaping" not in it.target and "\\x" in it.literal
-        and any(ord(c) < 16 and c not in C0_SIMPLE for c in text)
-        and (kind == "ok" or "two hexadecimal digits" in str(payload))
-    ):
-        return "hex-escape-with-one-digit"
+    if lang == "cpp" and (kind == "ok" or "out of range" in str(payload)):
+        # a character written as \x<hex> directly followed by a hexadecimal digit of the next character
+        for a, b in zip(text, text[1:]):
+            if b in HEXD and _hexesc_then_digit(a + b):
+                la = _literal_of(it.target, a)
+                lab = _literal_of(it.target, a + b)
+                if (
+                    la is not None and lab is not None
+                    and re.fullmatch(r'L?"\\x[0-9a-fA-F]+"', la) and lab == la[:-1] + b + '"'
+                ):
+                    return "hex-escape-absorbs-following-hex-digit"
+    if lang == "golang" and (kind == "ok" or "two hexadecimal digits" in str(payload)):
+        for c in text:
+            if ord(c) < 16 and c not in C0_SIMPLE and _literal_of(it.target, c) == '"\\x%x"' % ord(c):
+                return "hex-escape-with-one-digit"
     return None
 
 
